@@ -74,8 +74,12 @@ def get_suffix(shape):
     return "x".join(sshape)
 
 
-def get_shape_from_array(value, nd):
+def get_shape_from_array(value, nd, itemtype=None):
     if hasattr(value, "shape"):
+        if len(value.shape) > nd and hasattr(itemtype, "_shape"):
+            # items are arrays themselves: the trailing axes of an ndarray are
+            # theirs (as the deeper levels of a nested list are)
+            return tuple(value.shape[:nd])
         return value.shape
     elif hasattr(value, "_shape"):
         # (views and arrays built from dimensions keep their shape in a list)
@@ -347,7 +351,9 @@ class Array(metaclass=MetaArray):
                 if arg is None:
                     value = None
                 else:
-                    shape = get_shape_from_array(arg, len(cls._shape))
+                    shape = get_shape_from_array(
+                        arg, len(cls._shape), cls._itemtype
+                    )
                     if shape != cls._shape:
                         raise ValueError(f"shape not valid for {arg} ")
                     value = arg
@@ -379,7 +385,9 @@ class Array(metaclass=MetaArray):
                     )
                 if not is_integer(args[0]):  # init with array
                     value = args[0]
-                    shape = get_shape_from_array(value, len(cls._shape))
+                    shape = get_shape_from_array(
+                        value, len(cls._shape), cls._itemtype
+                    )
                     dshape = []
                     for idim, ndim in enumerate(cls._shape):
                         if ndim is None:
@@ -669,7 +677,7 @@ class Array(metaclass=MetaArray):
                 # items are numbers: a value nested deeper than the array has
                 # axes does not fit (it would be written in full)
                 nd += 1
-            shape = get_shape_from_array(value, nd)
+            shape = get_shape_from_array(value, nd, self._itemtype)
             fits = tuple(shape) == tuple(self._shape)
         if fits and not (self._is_static_type or is_integer(value)):
             # items of dynamic size keep the place and space they got at
